@@ -27,6 +27,7 @@ def one(x):
         sh(f"git -C /repo worktree remove --force {wt}", "/"); shutil.rmtree(wt, ignore_errors=True)
 with cf.ThreadPoolExecutor(12) as ex:
     res = list(ex.map(one, v))
-bad = [r for r in res if r[1] != "OK"]
-print(len(res), "variants;", len(bad), "bad")
+retired = {x["name"] for x in v if x["kind"] == "retired"}
+bad = [r for r in res if r[1] != "OK" and r[0] not in retired]
+print(len(res), "variants;", len(bad), "bad;", len([r for r in res if r[1] != "OK" and r[0] in retired]), "retired ones are (as recorded) no longer what they were")
 for b in bad: print(*b)
